@@ -49,7 +49,7 @@ _VERUS_ASSUMED = [
 PLAN["C03"] = {
     "level": "proof",
     "technique": "Verus contracts on the real kernels extracted from src/operations.rs each run (all n < 64, all tables, all indices) + Kani contract triples on the real Lut/LutN wrappers per size and index with an independent per-assignment oracle",
-    "level_text": "flip/swap/cofactor0/1/from_cofactors kernels are proved for every table length and every index by Verus (word-level postconditions and, by machine-checked bridge lemmas, the assignment-level statements g(x) = f(x with bits moved) for flip, swap, cofactors and from_cofactors; lemma_shannon gives the round trip); the wrappers of both types are proved per size (LutN 1..12, Lut 1..14) and per index (pair) by fully unwound Kani triples against `g(x) = f(x with bits moved)` evaluated independently, including in-place/copy agreement, operand preservation and the Shannon round trip.",
+    "level_text": "flip/swap/cofactor0/1/from_cofactors kernels are proved for every table length and every index by Verus (word-level postconditions and, by machine-checked bridge lemmas, the assignment-level statements g(x) = f(x with bits moved) for flip, swap, cofactors and from_cofactors; lemma_shannon gives the round trip); the wrappers of both types are proved per size (LutN 1..12, Lut 1..12) and per index (pair) by fully unwound Kani triples against `g(x) = f(x with bits moved)` evaluated independently, including in-place/copy agreement, operand preservation and the Shannon round trip.",
     "level_note": "Trusted: Verus/Z3/vstd, Kani/CBMC, rustc, extraction rules of DESIGN 2.3. The assignment-level statements of all five kernels (including swap, via lemma_swap_bits over the three storage regimes) are machine-checked by Verus for all n; Kani triples fix size and index per harness (complete for that size/index).",
     "verus_units": ["kernels"],
     "kani_units": ["spec_ops.rs", "c03_transforms.rs"],
@@ -67,10 +67,10 @@ PLAN["C03"] = {
         "from_cofactors_inplace": {"filters": ["c03q_s_fromcof", "c03t_s_fromcof", "c03q_d_fromcof", "c03t_d_fromcof"], "complete": True},
     },
     "assumptions": _VERUS_ASSUMED + [
-        "Kani triples: one harness per (type, size, index/pair); sizes LutN 1..12 and Lut 1..14 (the property's range); both argument orders of swap covered for n <= 4, one order per unordered pair above (the kernel normalises with max/min, proved by Verus for all orders)",
+        "Kani triples: one harness per (type, size, index/pair); sizes LutN 1..12 and Lut 1..12 - Lut n = 13, 14 of the property's range are NOT covered by Kani (one 256-word triple takes 4-9 min and up to 16 GB, ~300 of them; measured): for those sizes the statement rests on the Verus kernel proofs (all n) and on the wrappers forwarding (n, table, indices) unchanged; both argument orders of swap covered for n <= 4, one order per unordered pair above (the kernel normalises with max/min, proved by Verus for all orders)",
         "a failed Verus obligation whose complete Kani twin set passes over the property's whole range is reported as `proof lost`, not as a violation (DESIGN 1)",
     ],
-    "scope_note": "Verus: unbounded in n (< 64), table length and index. Kani: complete per size/index for LutN 1..12 and Lut 1..14.",
+    "scope_note": "Verus: unbounded in n (< 64), table length and index. Kani: complete per size/index for LutN 1..12 and Lut 1..12.",
 }
 
 
